@@ -6,6 +6,9 @@
 (*                                                                                              *)
 (* XMode = "index": one state per schema of AllCat, prints INDEX {id, leaf, pos, cons, schema, *)
 (*                  foreign}.                                                                   *)
+(* XMode = "sim":   tlc -simulate: every behaviour draws one schema of the LARGE catalogue      *)
+(*                  (every leaf kind x every position, defaults x required-ness x nullability) *)
+(*                  and prints its INDEX line; the thorough tier expands the drawn ids.        *)
 (* XMode = "cases": one state per (schema in Ids, document in Docs(schema)) prints CASE {id,   *)
 (*                  doc, f, p, accepts, eaccepts}; plus one state per schema printing EXPECT   *)
 (*                  {id, expect, needed}: the document EmitExpect demands. The invariant also  *)
@@ -19,6 +22,14 @@ XEntry(n, defs, cons, fs) == [schema |-> [defs |-> defs, root |-> "Root"], leaf 
 
 XChild == Def("XChild", TStruct(<<F("cid", TInt("int64", Ge(1), NoB)), FOpt("tag", TStr(-1, 2))>>))
 XKind  == Def("XKind", TEnum(<<"x", "y">>))
+
+BigInts(n) == XEntry(n, <<
+    Def("Root", TStruct(<<FDef("d53", TInt("int64", NoB, NoB), JBig("9007199254740993")),
+                          FDef("dmax", TInt("int64", NoB, NoB), JBig("9223372036854775807")),
+                          Fld("od", TInt("int64", NoB, NoB), FALSE, FALSE, JBig("4611686018427387905")),
+                          FDef("dneg", TInt("int64", NoB, NoB), JBig("-9007199254740993")),
+                          F("c", TConst(JBig("9007199254740993"))), FOpt("cmax", TConst(JBig("9223372036854775807"))),
+                          F("w", TStr(-1, -1))>>))>>, FALSE, <<>>)
 
 XList == <<
   \* a reference to an object of another package
@@ -79,35 +90,250 @@ XList == <<
     Def("Root", TStruct(<<FNull("ns", TStr(1, -1)), FNull("ni", TInt("int64", Ge(0), NoB)), FNull("nr", TRef("Child")),
                           FNull("na", TArr(TStr(-1, -1))), FNull("nm", TMap(TStr(-1, -1))), FNull("ne", TEnum(<<"a", "b">>)),
                           FOptNull("on", TNum("float64", NoB, Lt(2))), F("an", TArr(TNullable(TStr(-1, -1)))), F("w", TStr(-1, -1))>>)),
-    Child>>, TRUE, <<>>)
+    Child>>, TRUE, <<>>),
+  \* ONE run over several packages that all refer to the same object of a further package: every emitted document
+  \* (not only the first) must contain the inlined definitions
+  XEntry("xpkg-shared-foreign", <<
+    Def("Root", TStruct(<<F("v", TRef("XChild")), F("w", TStr(-1, -1))>>)),
+    Def("PUser", TStruct(<<F("c", TRef("XChild")), FOpt("k", TRef("XKind"))>>)),
+    Def("QOwner", TStruct(<<F("cs", TArr(TRef("XChild"))), F("k", TRef("XKind"))>>)),
+    XChild, XKind>>, TRUE,
+    <<FE("PUser", "User", "p"), FE("QOwner", "Owner", "q"), FE("XChild", "Child", "x"), FE("XKind", "Kind", "x")>>),
+  \* unions whose scalar branches have the SAME kind and differ by constant or constraint
+  XEntry("unions-same-kind", <<
+    Def("Root", TStruct(<<F("ord", TUnion(<<TConst(JStr("asc")), TConst(JStr("desc"))>>)),
+                          F("rng", TUnion(<<TInt("int64", NoB, Le(-1)), TInt("int64", Ge(2), NoB)>>)),
+                          FOpt("len", TUnion(<<TStr(-1, 1), TStr(3, -1)>>)),
+                          F("mix", TUnion(<<TConst(JInt(1)), TConst(JInt(2)), TStr(2, -1)>>)),
+                          FOpt("fr", TUnion(<<TNum("float64", NoB, Lt(0)), TNum("float64", Gt(1), NoB)>>)),
+                          F("w", TStr(-1, -1))>>))>>, TRUE, <<>>),
+  \* integers beyond 2^53 (exact decimal text, see Semantics!JBig) as defaults and constants; two copies: the output
+  \* options (compact / pretty) alternate with the schema id
+  BigInts("bigints-a"), BigInts("bigints-b")
 >>
 
-AllCat == [i \in DOMAIN Catalogue |-> Catalogue[i] @@ [foreign |-> <<>>]] \o XList
+(* ------------------ thorough tier only: three packages, aliases, mutual recursion, defaults, grids ------------------ *)
+TEntry(n, defs, cons, fs) == [schema |-> [defs |-> defs, root |-> "Root"], leaf |-> n, pos |-> "c12t", cons |-> cons, foreign |-> fs]
+YLeaf == Def("YLeaf", TStruct(<<F("n", TInt("int64", Ge(0), Le(2))), FOpt("k", TRef("YKind"))>>))
+YKind == Def("YKind", TEnum(<<"p", "q">>))
+GridFields(t, d) == <<   \* required-ness x nullability x default, one field each
+  Fld("rq", t, TRUE, FALSE, NoJ),   Fld("op", t, FALSE, FALSE, NoJ),  Fld("rn", t, TRUE, TRUE, NoJ),   Fld("on", t, FALSE, TRUE, NoJ),
+  Fld("rqd", t, TRUE, FALSE, d),    Fld("opd", t, FALSE, FALSE, d),   Fld("rnd", t, TRUE, TRUE, d),    Fld("ond", t, FALSE, TRUE, d)>>
+Grid(n, t, d, defs) == TEntry(n, <<Def("Root", TStruct(GridFields(t, d) \o <<F("w", TStr(-1, -1))>>))>> \o defs, TRUE, <<>>)
+
+TList == <<
+  \* a chain over three packages: main -> x -> y; the closure pulls in objects of a package main never names
+  TEntry("xpkg3-chain", <<
+    Def("Root", TStruct(<<F("v", TRef("XMid")), F("w", TStr(-1, -1))>>)),
+    Def("XMid", TStruct(<<F("leaf", TRef("YLeaf")), F("n", TStr(1, -1)), FOpt("ls", TArr(TRef("YLeaf")))>>)),
+    YLeaf, YKind>>, TRUE,
+    <<FE("XMid", "Mid", "x"), FE("YLeaf", "Leaf", "y"), FE("YKind", "Kind", "y")>>),
+  \* the same object name in two foreign packages, both referenced from the third
+  TEntry("xpkg3-collision", <<
+    Def("Root", TStruct(<<F("a", TRef("XChild")), F("b", TRef("YChild"))>>)),
+    XChild,
+    Def("YChild", TStruct(<<F("name", TStr(1, -1))>>))>>, TRUE,
+    <<FE("XChild", "Child", "x"), FE("YChild", "Child", "y")>>),
+  \* ... and in the document's own package as well
+  TEntry("xpkg3-collision-own", <<
+    Def("Root", TStruct(<<F("a", TRef("XChild")), F("b", TRef("YChild")), F("c", TRef("Child"))>>)),
+    Def("Child", TStruct(<<F("flag", TBool)>>)),
+    XChild,
+    Def("YChild", TStruct(<<F("name", TStr(1, -1))>>))>>, TRUE,
+    <<FE("XChild", "Child", "x"), FE("YChild", "Child", "y")>>),
+  \* the collision is only reached through the closure (main names x.Mid, x names y.Mid's namesake)
+  TEntry("xpkg3-collision-in-closure", <<
+    Def("Root", TStruct(<<F("v", TRef("XMid"))>>)),
+    Def("XMid", TStruct(<<F("inner", TRef("YMid")), F("n", TInt("int64", Ge(0), NoB))>>)),
+    Def("YMid", TStruct(<<F("s", TStr(-1, 2))>>))>>, TRUE,
+    <<FE("XMid", "Mid", "x"), FE("YMid", "Mid", "y")>>),
+  \* references to enums, integer enums, constants and aliases (of scalars, references, arrays, maps) of another package
+  TEntry("xpkg-enum-const-alias", <<
+    Def("Root", TStruct(<<F("k", TRef("XKind")), FOpt("ik", TRef("XIKind")), F("al", TRef("XLimit")), F("ra", TRef("XRefAlias")),
+                          F("la", TRef("XList")), FOpt("ma", TRef("XMap")), F("ks", TArr(TRef("XKind"))), F("w", TStr(-1, -1))>>)),
+    XKind, Def("XIKind", TIEnum(<<1, 2>>)), Def("XLimit", TInt("int64", Ge(0), Le(2))),
+    Def("XRefAlias", TRef("XChild")), Def("XList", TArr(TRef("XChild"))), Def("XMap", TMap(TStr(1, -1))), XChild>>, TRUE,
+    <<FE("XKind", "Kind", "x"), FE("XIKind", "IKind", "x"), FE("XLimit", "Limit", "x"), FE("XRefAlias", "RefAlias", "x"),
+      FE("XList", "List", "x"), FE("XMap", "Map", "x"), FE("XChild", "Child", "x")>>),
+  TEntry("xpkg-constants", <<
+    Def("Root", TStruct(<<F("c", TRef("XConst")), F("v", TRef("XHolder")), F("w", TStr(-1, -1))>>)),
+    Def("XConst", TConst(JStr("x"))),
+    Def("XHolder", TStruct(<<F("kind", TConst(JStr("h"))), F("ci", TConst(JInt(2)))>>))>>, FALSE,
+    <<FE("XConst", "Const", "x"), FE("XHolder", "Holder", "x")>>),
+  \* mutually recursive foreign objects, mutually recursive local objects
+  TEntry("xpkg-mutual", <<
+    Def("Root", TStruct(<<F("v", TRef("XA"))>>)),
+    Def("XA", TStruct(<<F("n", TInt("int64", Ge(0), NoB)), FOpt("b", TRef("XB"))>>)),
+    Def("XB", TStruct(<<F("s", TStr(1, -1)), FOpt("a", TRef("XA")), FOpt("as", TArr(TRef("XA")))>>))>>, TRUE,
+    <<FE("XA", "A", "x"), FE("XB", "B", "x")>>),
+  TEntry("mutual-local", <<
+    Def("Root", TStruct(<<F("v", TRef("Ping")), FOpt("m", TMap(TRef("Pong")))>>)),
+    Def("Ping", TStruct(<<F("n", TInt("int64", Ge(0), NoB)), FOpt("pong", TRef("Pong"))>>)),
+    Def("Pong", TStruct(<<F("s", TStr(1, -1)), FOpt("ping", TRef("Ping")), FOpt("pings", TArr(TRef("Ping")))>>))>>, TRUE, <<>>),
+  \* a foreign object used with a default / as nullable / inside a union of scalars and references
+  TEntry("xpkg-default-nullable", <<
+    Def("Root", TStruct(<<Fld("k", TRef("XKind"), TRUE, FALSE, JStr("y")), FNull("nc", TRef("XChild")), FOptNull("onk", TRef("XKind")),
+                          F("an", TArr(TNullable(TRef("XChild")))), F("w", TStr(-1, -1))>>)),
+    XKind, XChild>>, TRUE,
+    <<FE("XKind", "Kind", "x"), FE("XChild", "Child", "x")>>),
+  \* defaults of every value type
+  TEntry("defaults-falsy", <<
+    Def("Root", TStruct(<<FDef("z", TInt("int64", NoB, NoB), JInt(0)), FDef("f", TBool, JBool(FALSE)), FDef("e", TStr(-1, -1), JStr("")),
+                          FDef("zn", TNum("float64", NoB, NoB), JNum(0)), Fld("oz", TInt("int64", Ge(0), NoB), FALSE, FALSE, JInt(0)),
+                          Fld("of", TBool, FALSE, FALSE, JBool(FALSE)), FDef("ea", TArr(TStr(-1, -1)), JArr(<<>>)), F("w", TStr(-1, -1))>>))>>, TRUE, <<>>),
+  TEntry("defaults-collections", <<
+    Def("Root", TStruct(<<FDef("a", TArr(TInt("int64", NoB, NoB)), JArr(<<JInt(1), JInt(2)>>)),
+                          FDef("m", TMap(TStr(-1, -1)), JObj(<<P("k1", JStr("a"))>>)),
+                          Fld("oa", TArr(TStr(1, -1)), FALSE, FALSE, JArr(<<JStr("a")>>)),
+                          FDef("aa", TArr(TArr(TStr(-1, -1))), JArr(<<JArr(<<JStr("a")>>)>>)), F("w", TStr(-1, -1))>>))>>, TRUE, <<>>),
+  TEntry("defaults-enums-refs", <<
+    Def("Root", TStruct(<<FDef("e", TEnum(<<"a", "b">>), JStr("b")), FDef("ie", TIEnum(<<1, 2>>), JInt(2)),
+                          FDef("re", TRef("Kind"), JStr("b")), Fld("ore", TRef("Kind"), FALSE, FALSE, JStr("a")),
+                          FDef("rs", TRef("Child"), JObj(<<P("cid", JInt(2))>>)), FDef("rl", TRef("Limit"), JInt(1)), F("w", TStr(-1, -1))>>)),
+    Def("Kind", TEnum(<<"a", "b">>)), Def("Limit", TInt("int64", Ge(0), Le(2))), Child>>, TRUE, <<>>),
+  TEntry("defaults-structs", <<
+    Def("Root", TStruct(<<FDef("inl", TStruct(<<F("z", TInt("int64", NoB, NoB)), FOpt("s", TStr(-1, -1))>>), JObj(<<P("z", JInt(1)), P("s", JStr("a"))>>)),
+                          F("nest", TStruct(<<FDef("d", TStr(-1, -1), JStr("ab")), FDef("n", TInt("int64", Ge(0), NoB), JInt(1))>>)),
+                          F("w", TStr(-1, -1))>>))>>, TRUE, <<>>),
+  \* required-ness x nullability x default, per kind of type
+  Grid("grid-str", TStr(1, 2), JStr("ab"), <<>>),
+  Grid("grid-int", TInt("int64", Ge(0), Lt(300)), JInt(1), <<>>),
+  Grid("grid-num", TNum("float64", Gt(0), Le(2)), JNum(15), <<>>),
+  Grid("grid-bool", TBool, JBool(TRUE), <<>>),
+  Grid("grid-enum", TEnum(<<"a", "b">>), JStr("b"), <<>>),
+  Grid("grid-ienum", TIEnum(<<1, 2>>), JInt(2), <<>>),
+  Grid("grid-ref-enum", TRef("Kind"), JStr("b"), <<Def("Kind", TEnum(<<"a", "b">>))>>),
+  Grid("grid-ref-struct", TRef("Child"), JObj(<<P("cid", JInt(2))>>), <<Child>>),
+  Grid("grid-array", TArr(TStr(1, -1)), JArr(<<JStr("a")>>), <<>>),
+  Grid("grid-map", TMap(TInt("int64", Ge(0), NoB)), JObj(<<P("k1", JInt(1))>>), <<>>),
+  Grid("grid-time", TTime, JStr(Time1), <<>>),
+  Grid("grid-any", TAny, JInt(1), <<>>),
+  \* unions: with and without discriminator, nullable branches, arrays of unions of references
+  TEntry("unions", <<
+    Def("Root", TStruct(<<F("du", TDUnion("kind", <<"A", "B">>)), FOpt("odu", TDUnion("kind", <<"A", "B">>)), FNull("ndu", TDUnion("kind", <<"A", "B">>)),
+                          F("adu", TArr(TDUnion("kind", <<"A", "B">>))), F("mdu", TMap(TDUnion("kind", <<"A", "B">>))),
+                          F("us", TUnion(<<TStr(1, -1), TInt("int64", Ge(0), NoB), TBool>>)), FOpt("ous", TUnion(<<TStr(-1, -1), TNum("float64", NoB, NoB)>>)),
+                          F("aus", TArr(TUnion(<<TStr(-1, -1), TBool>>)))>>)),
+    Def("A", TStruct(<<F("kind", TConst(JStr("a"))), F("x", TInt("int64", Ge(0), NoB))>>)),
+    Def("B", TStruct(<<F("kind", TConst(JStr("b"))), FOpt("y", TStr(-1, 2))>>))>>, TRUE, <<>>),
+  \* intersections (allOf): `Both` and `Deep` are spelled in the inputs as the intersection of the objects listed in `inter`
+  \* and an inline struct holding the remaining fields; the term is the merged struct (what the documents look like)
+  TEntry("intersection", <<
+    Def("Root", TStruct(<<F("v", TRef("Both")), FOpt("vs", TArr(TRef("Both"))), FOpt("d", TRef("Deep")), F("w", TStr(-1, -1))>>)),
+    Def("Base", TStruct(<<F("a", TStr(1, -1)), FOpt("n", TInt("int64", Ge(0), NoB))>>)),
+    Def("Extra", TStruct(<<FOpt("e", TEnum(<<"a", "b">>))>>)),
+    Def("Both", TStruct(<<F("a", TStr(1, -1)), FOpt("n", TInt("int64", Ge(0), NoB)), F("b", TBool), FDef("dd", TStr(-1, -1), JStr("ab"))>>)),
+    Def("Deep", TStruct(<<F("a", TStr(1, -1)), FOpt("n", TInt("int64", Ge(0), NoB)), FOpt("e", TEnum(<<"a", "b">>)), F("z", TInt("int64", NoB, Le(2)))>>))>>,
+    TRUE, <<>>) @@ [inter |-> <<[name |-> "Both", of |-> <<"Base">>], [name |-> "Deep", of |-> <<"Base", "Extra">>]>>]
+>>
+
+AllCat == [i \in DOMAIN Catalogue |-> Catalogue[i] @@ [foreign |-> <<>>]] \o XList \o TList
+
+(* ------------------ the large catalogue the thorough tier DRAWS from (tlc -simulate, seeded) ------------------ *)
+\* every leaf kind (constraint kinds on ints and floats of several widths, inclusive and exclusive, one- and two-sided)
+\* x every position (the positions of SemanticsMC plus aliases, nested anonymous structs, ...), plus
+\* every defaultable leaf x required-ness x nullability with a default
+ExtraLeaves == <<
+  L("int-gt",     TInt("int64", Gt(0), NoB), TRUE),            L("int-lt",     TInt("int64", NoB, Lt(2)), TRUE),
+  L("int-ge-lt",  TInt("int64", Ge(0), Lt(2)), TRUE),          L("int-gt-le",  TInt("int64", Gt(0), Le(2)), TRUE),
+  L("num-lt",     TNum("float64", NoB, Lt(2)), TRUE),          L("num-ge-le",  TNum("float64", Ge(0), Le(2)), TRUE),
+  L("num-gt-lt",  TNum("float64", Gt(0), Lt(2)), TRUE),        L("f32-ge-le",  TNum("float32", Ge(0), Le(2)), TRUE),
+  L("f32-gt",     TNum("float32", Gt(0), NoB), TRUE),          L("uint8-le",   TInt("uint8", NoB, Le(2)), TRUE),
+  L("int8-ge",    TInt("int8", Ge(0), NoB), TRUE),             L("uint32-ge-le", TInt("uint32", Ge(1), Le(2)), TRUE),
+  L("enum3",      TEnum(<<"a", "b", "ab">>), FALSE),           L("ienum-0",    TIEnum(<<0, 2>>), FALSE),
+  L("const-bool", TConst(JBool(TRUE)), FALSE),                 L("const-num",  TConst(JNum(15)), FALSE),
+  L("const-int-0", TConst(JInt(0)), FALSE),                    L("const-empty", TConst(JStr("")), FALSE)
+>>
+AllLeaves == ConsLeaves \o PlainLeaves \o ExtraLeaves
+ExtraPos == <<
+  Pos("alias", "req", <<"alias">>),                 Pos("optional-alias", "opt", <<"alias">>),
+  Pos("nullable-alias", "null", <<"alias">>),       Pos("array>alias", "req", <<"alias", "arr">>),
+  Pos("map>alias", "req", <<"alias", "map">>),      Pos("alias>alias", "req", <<"alias", "alias">>),
+  Pos("ref>alias", "req", <<"alias", "ref">>),      Pos("anon>anon", "req", <<"anon", "anon">>),
+  Pos("ref>anon", "req", <<"anon", "ref">>),        Pos("anon>array", "req", <<"arr", "anon">>),
+  Pos("anon>map", "req", <<"map", "anon">>),        Pos("map>anon", "req", <<"anon", "map">>),
+  Pos("union-branch>array", "req", <<"arr", "union">>), Pos("optional-nullable>map", "optnull", <<"map">>),
+  Pos("nullable-array>nullable", "null", <<"nullable", "arr">>), Pos("optional>anon>optional", "opt", <<"anonopt">>)
+>>
+AllPos == BasicPos \o DeepPos \o ExtraPos
+
+XWrap(w, x, l) ==
+  LET s == ToString(l) IN
+  CASE w = "alias"   -> WT(TRef("T" \o s), <<Def("T" \o s, x)>>)
+    [] w = "anonopt" -> WT(TStruct(<<FOpt("c", x), F("d", TBool)>>), <<>>)
+    [] OTHER -> Wrap(w, x, l)
+RECURSIVE XWrapAll(_, _, _)
+XWrapAll(x, chain, l) ==
+  IF l > Len(chain) THEN x
+  ELSE LET w == XWrap(chain[l], x.t, l) IN XWrapAll(WT(w.t, x.defs \o w.defs), chain, l + 1)
+ModFld(m, t, d) ==
+  CASE m = "req" -> Fld("v", t, TRUE, FALSE, d)  [] m = "opt"     -> Fld("v", t, FALSE, FALSE, d)
+    [] m = "null" -> Fld("v", t, TRUE, TRUE, d)  [] m = "optnull" -> Fld("v", t, FALSE, TRUE, d)
+BigEntry(leaf, pos, d, tag) ==
+  LET w == XWrapAll(WT(leaf.t, <<>>), pos.chain, 1) IN
+  [schema |-> [defs |-> <<Def("Root", TStruct(<<F("w", TStr(-1, -1)), ModFld(pos.mod, w.t, d)>>))>> \o w.defs, root |-> "Root"],
+   leaf |-> leaf.name, pos |-> tag \o pos.name, cons |-> leaf.cons, foreign |-> <<>>]
+Defaultable == SelectSeq(AllLeaves, LAMBDA lf : lf.t.k \in {"int", "num", "str", "bool", "enum", "ienum"})
+DefMods == <<Pos("top", "req", <<>>), Pos("optional", "opt", <<>>), Pos("nullable", "null", <<>>), Pos("optional-nullable", "optnull", <<>>)>>
+NGrid == Len(AllLeaves) * Len(AllPos)
+NDefs == Len(Defaultable) * Len(DefMods)
+BigAt(i) ==
+  IF i <= NGrid
+  THEN BigEntry(AllLeaves[((i - 1) \div Len(AllPos)) + 1], AllPos[((i - 1) % Len(AllPos)) + 1], NoJ, "big:")
+  ELSE LET j  == i - NGrid
+           lf == Defaultable[((j - 1) \div Len(DefMods)) + 1]
+       IN BigEntry(lf, DefMods[((j - 1) % Len(DefMods)) + 1], Base(<<>>, lf.t, 0), "bigdefault:")
+NBig == NGrid + NDefs
+EntryAt(i) == IF i <= Len(AllCat) THEN AllCat[i] ELSE BigAt(i - Len(AllCat))
+
+\* probe documents for unions of scalars: every value of a small alphabet in the place of a top-level union field
+\* (label "Probe": accepted or rejected as Accepts says - the emitted document must agree on BOTH sides)
+ProbeVals == <<JInt(-1), JInt(0), JInt(1), JInt(2), JInt(300), JNum(15), JNum(5), JNum(-5), JStr(""), JStr("a"), JStr("ab"), JStr("abc"),
+               JStr("asc"), JStr("desc"), JStr("zz"), JBool(TRUE)>>
+Probes(schema, fuel) ==
+  LET S == DefsFn(schema)
+      t == S[schema.root]
+      b == Base(S, t, fuel)
+  IN IF t.k # "struct" THEN {} ELSE
+     UNION {LET f == t.fields[fi] IN
+            IF f.t.k = "union" /\ Has(b.ps, f.n)
+            THEN {Var(JObj(ReplaceAt(b.ps, Idx(b.ps, f.n), P(f.n, ProbeVals[i]))), "Probe", <<f.n>>) : i \in DOMAIN ProbeVals}
+            ELSE {}
+            : fi \in DOMAIN t.fields}
+XDocs(schema, fuel) == Docs(schema, fuel) \cup Probes(schema, fuel)
 
 Collides(e) ==
   \E i, j \in DOMAIN e.schema.defs :
     i # j /\ OwnName(e.foreign, e.schema.defs[i].name) = OwnName(e.foreign, e.schema.defs[j].name)
 
-XInit == IF XMode = "index"
-         THEN si \in DOMAIN AllCat /\ dx = Marker
-         ELSE si \in (Ids \cap DOMAIN AllCat) /\ dx \in (Docs(AllCat[si].schema, Fuel) \cup {Marker})
-XSpec == XInit /\ [][Next]_vars
+XInit == CASE XMode = "index" -> si \in DOMAIN AllCat /\ dx = Marker
+           [] XMode = "sim"   -> si = 0 /\ dx = Marker      \* the draw is the (random) first transition, see XNext
+           [] OTHER -> si \in (Ids \cap 1..(Len(AllCat) + NBig)) /\ dx \in (XDocs(EntryAt(si).schema, Fuel) \cup {Marker})
+\* tlc -simulate -seed N: every behaviour is ONE draw from the large catalogue
+IndexLine(i) ==
+  LET e == EntryAt(i) IN
+  PrintT(<<"INDEX", ToJson([id |-> i, leaf |-> e.leaf, pos |-> e.pos, cons |-> e.cons, schema |-> e.schema, foreign |-> e.foreign,
+                            inter |-> IF "inter" \in DOMAIN e THEN e.inter ELSE <<>>])>>)
+XNext == CASE XMode = "sim" /\ si = 0 -> si' \in (Len(AllCat) + 1)..(Len(AllCat) + NBig) /\ dx' = dx
+           \* printed from the ACTION: TLC evaluates it for the drawn state only (invariants are evaluated on every candidate)
+           [] XMode = "sim" /\ si # 0 /\ dx = Marker -> IndexLine(si) /\ si' = si /\ dx' = [dx EXCEPT !.f = "drawn"]
+           [] OTHER -> UNCHANGED vars
+XSpec == XInit /\ [][XNext]_vars
 
 EAcceptsExpected(e, d) ==
   LET exp == AsEmitted(EmitDoc(e.schema, e.foreign, ""), OwnName(e.foreign, e.schema.root))
       DD  == EDefsFn(exp.defs)
   IN EAccepts(DD, DD[exp.root], d)
+Pkgs(e) == {e.foreign[i].pkg : i \in DOMAIN e.foreign}
 
 XEmit ==
-  LET e == AllCat[si] IN
+  XMode = "sim" \/
+  LET e == EntryAt(si) IN
   IF XMode = "index"
-  THEN PrintT(<<"INDEX", ToJson([id |-> si, leaf |-> e.leaf, pos |-> e.pos, cons |-> e.cons, schema |-> e.schema,
-                                  foreign |-> e.foreign])>>)
+  THEN IndexLine(si)
   ELSE IF dx = Marker
-  THEN PrintT(<<"EXPECT", ToJson([id |-> si, expect |-> EmitDoc(e.schema, e.foreign, ""),
-                                   pkgs |-> {e.foreign[i].pkg : i \in DOMAIN e.foreign},
-                                   xexpect |-> [i \in DOMAIN e.foreign |-> [pkg |-> e.foreign[i].pkg,
-                                                                          expect |-> EmitDoc(e.schema, e.foreign, e.foreign[i].pkg)]]])>>)
+  THEN PrintT(<<"EXPECT", ToJson([id |-> si, schema |-> e.schema, expect |-> EmitDoc(e.schema, e.foreign, ""),
+                                   xexpect |-> [p \in Pkgs(e) |-> EmitDoc(e.schema, e.foreign, p)]])>>)
   ELSE LET S == DefsFn(e.schema) IN
        /\ (Collides(e) \/ ExpectSound(e.schema, e.foreign, dx.d))
        /\ PrintT(<<"CASE", ToJson([id |-> si, doc |-> dx.d, f |-> dx.f, p |-> dx.p,
